@@ -7,7 +7,8 @@ Two deterministic local automata whose labels are **accesses of the source text 
 
 * `tstep` – an application thread `t` (state = L2's `tpc t`): `urcu_workqueue_queue_work` (after the entry label
   `qCall`/`qcInc`), the wake path `wake_worker_thread`, `urcu_workqueue_pause_worker`, `urcu_workqueue_resume_worker`,
-  the first access of `urcu_workqueue_destroy`, and `urcu_workqueue_wait_completion`;
+  the first access of `urcu_workqueue_destroy`, and `urcu_workqueue_wait_completion` (automaton and lift / projection
+  only: no source theorem yet);
 * `wstep` – the worker thread (state `WLState`: a pc that refines L2's `wpc` by the position inside the
   `__cds_wfcq_for_each_blocking_safe` traversal of the private list, and `cnt` = `cbcount`).
 
